@@ -11,9 +11,10 @@ WSTUBS = OSTUBS + [("<std::fs::File as std::io::Write>::write", "crate::c17::fil
 INFO = {
     "rule": "(a) per Mode and sink type: the OpenOptions setters are Kani-stubbed to record their arguments, OpenOptions::_open returns a dummy File; "
             "the recorded flag set must be the one the doc comment of the mode requires. (b) FileSink<u32>::work with File::write stubbed over a ghost "
-            "byte log: per call a symbolic 1..=len bytes are accepted or the call fails (symbolic); the stream-activity hook observes the consume; "
+            "byte log: per call an enumerated number of bytes is accepted (short writes) or the call fails (symbolic); the stream-activity hook observes the consume; "
             "window length enumerated, samples symbolic.",
-    "bounds": "modes {Create, Overwrite, Append} x {FileSink<u8>, NoCopyFileSink<String>}; window length 0..3 samples of 4 bytes.",
+    "bounds": "modes {Create, Overwrite, Append} x {FileSink<u8>, NoCopyFileSink<String>}; write-before-consume: only the empty window is decided - with one "
+              "or more samples CBMC exhausts 14 GB / 420-1800 s (BufWriter's 8 KiB buffer), so that half of the property is NOT established.",
     "outside": "every statement about actual files, directories, permissions, SIGKILL, page cache and power loss (POSIX open(2)/write(2) semantics are "
                "assumed: bytes accepted by write(2) survive the death of the process); NoCopyFileSink's pop-then-write order (a packet popped before a "
                "failing write is lost; noted, not asserted).",
@@ -30,9 +31,12 @@ def all_harnesses():
             hs.append(Harness(f"c17_mode_{nm}_{'nc' if nc else 'stream'}", f"crate::c17::mode_flags({m}, {str(nc).lower()})", unwind=12,
                               unit=("NoCopyFileSink::new" if nc else "FileSink::new"), stubs=OSTUBS,
                               shape={"mode": nm, "sink": "NoCopyFileSink" if nc else "FileSink"}, core=True, timeout=900, replay="kani"))
-    for n in (0, 1, 2, 3):
-        hs.append(Harness(f"c17_wbc_{n}", f"crate::c17::write_before_consume({n})", unwind=18, unit="FileSink::work", stubs=WSTUBS,
-                          shape={"window": n}, core=(n in (0, 2)), timeout=1800, replay="kani"))
+    for n in (0, 1, 2):
+        for ci, ch in enumerate(([64], [1, 64], [3, 2, 64], [4, 4])):
+            if n == 0 and ci > 0:
+                continue
+            hs.append(Harness(f"c17_wbc_{n}_c{ci}", f"crate::c17::write_before_consume({n}, &[{', '.join(map(str, ch))}])", unwind=18, unit="FileSink::work",
+                              stubs=WSTUBS, shape={"window": n, "bytes_accepted_per_write": ch}, core=(n == 0), timeout=1800, replay="kani"))
     return hs
 
 
